@@ -223,9 +223,8 @@ theorem C01_trigger (hne : (t.event == initialEv) = false) (c : Cfg) (s : StateI
         (trigger nestedRtc m t c).1.cur = some (stateVal m tr.target) := by
   have key := tryCands_choose B (out m s) hg c
   unfold trigger
-  simp only [hne, Bool.false_eq_true, if_false]
   rw [bind_ok (x := EM.get) (a := c) rfl]
-  simp only [EM.get, hs]
+  simp only [EM.get, hne, Bool.false_and, Bool.false_eq_true, if_false, hs]
   cases hch : choose m.truthy act t.event (out m s) with
   | abort x =>
     rw [hch] at key; simp only at key ⊢
